@@ -55,6 +55,35 @@ def auditedReads : List (String × String) := []
 
 def knownUnsync : List (String × String) := findingSites ++ auditedSites
 
+/-! ## deep round 3: objects written but not created by the writer -/
+
+/-- audited: results that ARE a package-level slice / map (never a pointer: `c20_no_pointer_cell_handed_out`).  Every
+    consumer only reads them (`CreateDiscoveryConfig` copies them into the discovery document that is marshalled; the
+    enumer-generated `…String` functions return an ELEMENT of the map, the index expression is over-approximated; the
+    `…Values` functions hand out the generated slice): no write site anywhere targets one of these cells
+    (`c20_handed_out_cells_never_written`). -/
+def knownHandedOut : List (String × String) := [
+  ("op.AccessTokenTypeString", "op._AccessTokenTypeNameToValueMap"),
+  ("op.AccessTokenTypeValues", "op._AccessTokenTypeValues"),
+  ("op.ApplicationTypeString", "op._ApplicationTypeNameToValueMap"),
+  ("op.ApplicationTypeValues", "op._ApplicationTypeValues"),
+  ("op.Scopes", "op.DefaultSupportedScopes"),
+  ("op.SupportedClaims", "op.DefaultSupportedClaims")]
+
+/-- class S (potential, audited): the error-answer functions write the CURRENT request's `state` / `session_state` into
+    the `*oidc.Error` found (errors.As) in the error value they were handed.  Every error value the LIBRARY produces is
+    created per call (`oidc.ErrInvalidRequest()` … are constructor functions; `c20_no_shared_cell_reachable_from_written_value`:
+    no package-level `*oidc.Error` exists), so the written object is the request's own.  An application whose `op.Storage` /
+    `AuthorizeValidator` returns one shared `*oidc.Error` instance hands the library an object that it then mutates per request. -/
+def knownSuppliedErrorWrites : List (String × String) := [
+  ("oidc.DefaultToServerError", "oauth.ErrorType"),
+  ("oidc.DefaultToServerError", "oauth.Description"),
+  ("oidc.DefaultToServerError", "oauth.Parent"),
+  ("op.AuthRequestError", "e.State"),
+  ("op.AuthRequestError", "e.SessionState"),
+  ("op.TryErrorRedirect", "e.State"),
+  ("op.TryErrorRedirect", "e.SessionState")]
+
 /-- order-insensitive equality of two duplicate-free descriptions -/
 def sameSet {α : Type} [BEq α] (a b : List α) : Bool := a.all b.contains && b.all a.contains
 
